@@ -111,8 +111,8 @@ func (s seqImpl) Exec(h *vh.H, op string) string {
 	select {
 	case res := <-done:
 		return res
-	case <-time.After(45 * time.Second):
-		fmt.Fprintf(os.Stderr, "DEADLOCK: op did not return within 45 s: %s\n", op)
+	case <-time.After(120 * time.Second):
+		fmt.Fprintf(os.Stderr, "DEADLOCK: op did not return within 120 s: %s\n", op)
 		_ = pprof.Lookup("goroutine").WriteTo(os.Stderr, 1)
 		os.Exit(3)
 		return "deadlock"
